@@ -2,6 +2,7 @@
 Each sweep returns {"evaluations", "distinct_nontrivial", "failures": [...], "samples", "rule", "distribution"}.
 A failure record has "text", "ts", "opts", "expected", "observed", "what"."""
 import calendar, collections, itertools, random, re, sys
+from qa import samp
 from datetime import date, datetime, timedelta
 import grammar as G
 from realparse import parse_many, T, I
@@ -29,8 +30,8 @@ def ref_times(rng, tier, n_quick):
         d0 = date(2016, 1, 1)
         ds = [d0 + timedelta(i) for i in range((date(2043, 12, 31) - d0).days + 1)]
         return [(d.year, d.month, d.day) + rng.choice(TIMES) for d in ds]
-    picked = rng.sample(ds, min(n_quick, len(ds)))
-    return [(d.year, d.month, d.day) + t for d in picked for t in (rng.sample(TIMES, 2))]
+    picked = samp(rng, ds, min(n_quick, len(ds)))
+    return [(d.year, d.month, d.day) + t for d in picked for t in (samp(rng, TIMES, 2))]
 
 
 def dT(d):
@@ -129,7 +130,7 @@ def sweep_c03(rng, tier):
     for ts in tss:
         pick = []
         for k, fs in byfam.items():
-            pick += rng.sample(fs, min(len(fs), max(1, per // len(byfam) + 1)))
+            pick += samp(rng, fs, min(len(fs), max(1, per // len(byfam) + 1)))
         for (family, text, kind, arg) in pick:
             cases.append((text, ts, {})); exp.append(c03_expected(ts, kind, arg)); fam.append(family)
     # every form at least once
@@ -265,7 +266,7 @@ def sweep_c05(rng, tier):
     dates += [(2020, 2, 29), (2000, 2, 29), (1999, 12, 31), (2029, 12, 31), (1990, 1, 1), (2024, 2, 29), (2021, 2, 24), (2024, 2, 29), (2029, 12, 8)]
     for (y, m, d) in dates:
         e = T(y, m, d)
-        for ts in rng.sample(refs, 4):
+        for ts in samp(rng, refs, 4):
             for name, t in {"dd.mm.yyyy": "%02d.%02d.%d" % (d, m, y), "d.m.yyyy": "%d.%d.%d" % (d, m, y), "dd/mm/yyyy": "%02d/%02d/%d" % (d, m, y), "dd-mm-yyyy": "%02d-%02d-%d" % (d, m, y)}.items():
                 cases.append((t, ts, {})); exp.append(e); fam.append(name)
             if y >= 2000:
@@ -296,7 +297,7 @@ def sweep_c05(rng, tier):
         if not callable(e): byfam[f].append((c, e))
     for f, lst in byfam.items():
         for _ in range(6 if tier == "thorough" else 2):
-            (ca, ea), (cb, eb) = rng.sample(lst, 2) if len(lst) >= 2 else (lst[0], lst[0])
+            (ca, ea), (cb, eb) = samp(rng, lst, 2) if len(lst) >= 2 else (lst[0], lst[0])
             if ea == eb: continue
             try:
                 g = _gen(ca[0], ts=datetime(*ca[1]), timeout=0)
@@ -317,7 +318,7 @@ def sweep_c05(rng, tier):
 def sweep_c06(rng, tier):
     cases, exp, fam = [], [], []
     ts0 = (2018, 3, 7, 12, 43, 0)
-    minutes = range(60) if tier == "thorough" else sorted(set([0, 1, 5, 15, 29, 30, 45, 59] + rng.sample(range(60), 6)))
+    minutes = range(60) if tier == "thorough" else sorted(set([0, 1, 5, 15, 29, 30, 45, 59] + samp(rng, range(60), 6)))
     off = {"latent_time": False}
     for h in range(24):
         for m in minutes:
@@ -487,12 +488,12 @@ def sweep_c08(rng, tier):
                25: ["twentyfive", "fünfundzwanzig"], 26: ["twentysix", "sechsundzwanzig"], 27: ["twentyseven", "siebenundzwanzig"], 28: ["twentyeight", "achtundzwanzig"],
                29: ["twentynine", "neunundzwanzig"], 30: ["thirty", "dreißig", "dreissig"], 31: ["thirtyone", "einunddreißig", "einunddreissig"]}
     for u, words in units.items():
-        ws = words if tier == "thorough" else rng.sample(words, min(3, len(words)))
+        ws = words if tier == "thorough" else samp(rng, words, min(3, len(words)))
         for w in ws:
             if w in ("m", "h"):
                 ns = list(range(24, 121, 7))      # N h / N m with N < 24 are clock notations (C06)
             else:
-                ns = list(range(0, 121)) if tier == "thorough" else sorted(set([0, 1, 2, 9, 10, 11, 24, 31, 60, 99, 100, 120] + rng.sample(range(121), 6)))
+                ns = list(range(0, 121)) if tier == "thorough" else sorted(set([0, 1, 2, 9, 10, 11, 24, 31, 60, 99, 100, 120] + samp(rng, range(121), 6)))
                 # amounts of every length: the whole digit run is the amount
                 ns = list(ns) + [999, 1000, 1440, 9999, 10000, 10080, 43200, 99999, 525600, 1234567] + [rng.randrange(10 ** k, 10 ** (k + 1)) for k in (3, 4, 5, 6)]
             for n in ns:
@@ -549,7 +550,7 @@ def c20_days(rng, n):
     dows = [w for ws in G.dow_words() for w in ws]
     days = []
     days += G.L("ruleToday") + G.L("ruleTomorrow") + G.L("ruleAfterTomorrow") + G.L("ruleYesterday") + G.L("ruleBeforeYesterday") + G.L("ruleEOM") + G.L("ruleEOY")
-    days += rng.sample(dows, 12) + ["this " + w for w in rng.sample(dows, 6)] + ["next " + w for w in rng.sample(dows, 6)] + [w + " next week" for w in rng.sample(dows, 4)] + ["am " + w for w in rng.sample(dows, 4)]
+    days += samp(rng, dows, 12) + ["this " + w for w in samp(rng, dows, 6)] + ["next " + w for w in samp(rng, dows, 6)] + [w + " next week" for w in samp(rng, dows, 4)] + ["am " + w for w in samp(rng, dows, 4)]
     days += ["12.12.2020", "1.2.2021", "31/12/2019", "5th", "the 5th", "5.", "23.", "5. mai", "may 5th", "5th of may", "12.5.", "31.12.", "3 march 2021", "march 3rd", "dec 24", "29.02.2020"]
     return sorted(set(days))
 
@@ -563,7 +564,7 @@ def c20_clocks(rng):
             clocks += ["%d:%02d %s" % (h12, m, ap), "%d:%02d%s" % (h12, m, ap), "%d.%02d %s" % (h12, m, ap)]
             if m % 5 == 0: clocks += ["%02d%02d" % (h, m), "%02d%02d uhr" % (h, m)]
         clocks += ["%d uhr" % h, "%dh" % h, "%d o'clock" % h, "%d %s" % (h % 12 or 12, "am" if h < 12 else "pm"), "%d%s" % (h % 12 or 12, "am" if h < 12 else "pm")]
-    clocks += rng.sample(G.L("ruleNamedHour"), 15) + ["half past 8", "quarter to nine", "viertel vor 9", "halb 9", "quarter past 3", "midnight", "mitternacht"]
+    clocks += samp(rng, G.L("ruleNamedHour"), 15) + ["half past 8", "quarter to nine", "viertel vor 9", "halb 9", "quarter past 3", "midnight", "mitternacht"]
     return sorted(set(clocks))
 
 
@@ -577,9 +578,9 @@ def c20_families(rng, ts):
     dayf = {
         "today": G.L("ruleToday"), "tomorrow": G.L("ruleTomorrow"), "aftertomorrow": G.L("ruleAfterTomorrow"), "yesterday": G.L("ruleYesterday") + G.L("ruleBeforeYesterday"),
         "eom/eoy": G.L("ruleEOM") + G.L("ruleEOY"),
-        "weekday": rng.sample(other, 6), "weekday = today's": rng.sample(own, min(3, len(own))),
-        "at weekday": [a + " " + w for a in at for w in rng.sample(other, 2)], "at weekday = today's": [a + " " + w for a in at for w in rng.sample(own, 2)],
-        "next weekday": ["next " + w for w in rng.sample(other + own, 4)] + [w + " next week" for w in rng.sample(other + own, 3)] + ["nächsten " + w for w in rng.sample(other, 2)],
+        "weekday": samp(rng, other, 6), "weekday = today's": samp(rng, own, min(3, len(own))),
+        "at weekday": [a + " " + w for a in at for w in samp(rng, other, 2)], "at weekday = today's": [a + " " + w for a in at for w in samp(rng, own, 2)],
+        "next weekday": ["next " + w for w in samp(rng, other + own, 4)] + [w + " next week" for w in samp(rng, other + own, 3)] + ["nächsten " + w for w in samp(rng, other, 2)],
         "numeric date": ["12.12.2020", "1.2.2021", "31/12/2019", "29.02.2020", "3-3-2021"], "day of month": ["5th", "the 5th", "5.", "23.", "am 5."],
         "day + month": ["5. mai", "may 5th", "5th of may", "12.5.", "31.12.", "dec 24", "3 march 2021", "march 3rd"],
     }
@@ -593,7 +594,7 @@ def c20_families(rng, ts):
                 clockf["hhmm"].append("%02d%02d" % (h, m)); clockf["hhmm uhr"].append("%02d%02d uhr" % (h, m))
         clockf["h uhr"].append("%d uhr" % h); clockf["hh"].append("%dh" % h); clockf["h oclock"].append("%d o'clock" % h)
         clockf["h ap"].append("%d %s" % (h % 12 or 12, "am" if h < 12 else "pm")); clockf["hap"].append("%d%s" % (h % 12 or 12, "am" if h < 12 else "pm"))
-    clockf["named hour"] = rng.sample(G.L("ruleNamedHour"), 12)
+    clockf["named hour"] = samp(rng, G.L("ruleNamedHour"), 12)
     clockf["spoken"] = ["half past 8", "quarter to nine", "viertel vor 9", "halb 9", "quarter past 3", "midnight", "mitternacht"]
     return dayf, dict(clockf)
 
@@ -602,7 +603,7 @@ def sweep_c20(rng, tier):
     tss = [(2018, 3, 7, 12, 43, 0), (2020, 2, 28, 23, 59, 30), (2019, 12, 31, 0, 0, 0), (2021, 3, 5, 18, 0, 0), (2021, 3, 3, 18, 0, 0)]
     reps = 3 if tier == "thorough" else 1
     combos = []
-    for ts in (tss if tier == "thorough" else rng.sample(tss, 3)):
+    for ts in (tss if tier == "thorough" else samp(rng, tss, 3)):
         dayf, clockf = c20_families(rng, ts)
         for dn, ds in dayf.items():
             for cn, cs in clockf.items():
